@@ -3573,8 +3573,8 @@ func (t *Topic) notifySubChange(uid, actor types.Uid, isChan bool,
 		} else if newPres && !oldPres {
 			// Subscription un-muted.
 
-			// Notify subscriber of topic's online status.
-			if t.cat == types.TopicCatGrp && !isChan {
+			// Notify subscriber of topic's (or, in a P2P topic, the other user's) online status.
+			if t.cat == types.TopicCatP2P || (t.cat == types.TopicCatGrp && !isChan) {
 				t.presSingleUserOffline(uid, newWant&newGiven, "?unkn+en", nilPresParams, "", false)
 			} else if t.cat == types.TopicCatMe {
 				// User is visible online now, notify subscribers.
